@@ -23,6 +23,9 @@ pub enum Init {
     FromSlice { len: usize, seed: u64 },
     /// simulator-owned storage: needed + extra words, garbage everywhere outside the contents
     Raw { len: usize, extra: usize, garbage: u64, pattern: u8, contents: u64 },
+    /// bit vectors only: 2^32 + extra bits, all ones, no per-bit model: the counting operations (accumulators
+    /// and counters must be as wide as usize), fill and flip; the operation list is ignored
+    Giant { extra: usize },
 }
 
 #[derive(Clone, Debug, Serialize, Deserialize, PartialEq)]
@@ -173,6 +176,10 @@ fn gen_too_wide(rng: &mut Rng, width: usize, wbits: usize) -> Option<u128> {
 }
 
 pub fn generate(prop: &str, tier: Tier, run: u64, rng: &mut Rng) -> BitsCase {
+    if run == 11 && matches!(prop, "C06" | "C10") {
+        // one vector of more than 2^32 ones per run of the check (about 0.5 GB for a few seconds in one worker)
+        return BitsCase { obj: "bv".into(), word: "usize".into(), width: 1, init: Init::Giant { extra: rng.urange(1, 300) }, ops: vec![], pool: *rng.pick(&[2usize, 16]) };
+    }
     let is_bv = match prop {
         "C06" => true,
         "C05" => false,
@@ -233,6 +240,7 @@ pub fn generate(prop: &str, tier: Tier, run: u64, rng: &mut Rng) -> BitsCase {
     // model length as the history is generated
     let mut cur = match &case.init {
         Init::New { len } | Init::NewUnaligned { len } | Init::WithValue { len, .. } | Init::FromIter { len, .. } | Init::FromSlice { len, .. } | Init::Raw { len, .. } => *len,
+        Init::Giant { .. } => 0,
         Init::WithCapacity { .. } => 0,
         Init::Macro { form, n, .. } => {
             if *form == 0 {
@@ -248,6 +256,20 @@ pub fn generate(prop: &str, tier: Tier, run: u64, rng: &mut Rng) -> BitsCase {
         let op = gen_op(prop, rng, is_bv, growable, raw, big, width, wb, &mut cur, q);
         if let Some(op) = op {
             case.ops.push(op);
+        }
+    }
+    // bit vectors, now and then: shrink to a whole number of words (stale spare words stay behind), then a long extend
+    // from an exact-size iterator (bulk / word-assembling paths only run on long inputs)
+    if is_bv && growable && !big && rng.chance(1, 12) {
+        let at = rng.usize_below(case.ops.len() + 1);
+        let keep = 64 * rng.urange(0, 3);
+        let k = rng.urange(1024, 2600);
+        let seed = rng.next_u64();
+        case.ops.insert(at, Op::Extend((0..k as u64).map(|i| value_at(seed, i, 1) & 1).collect()));
+        case.ops.insert(at, Op::Resize(keep, rng.below(2) as u128));
+        if rng.chance(1, 2) {
+            // grow first so that the shrink really leaves words behind
+            case.ops.insert(at, Op::Resize(keep + rng.urange(65, 400), 1));
         }
     }
     let _ = run;
@@ -317,7 +339,7 @@ fn gen_op(prop: &str, rng: &mut Rng, is_bv: bool, growable: bool, raw: bool, big
                 from: if len == 0 { 0 } else { rng.usize_below(len + 1).min(len) },
                 to: if dst_len == 0 { 0 } else { rng.usize_below(dst_len + 1).min(dst_len) },
                 len: match rng.below(4) {
-                    0 => usize::MAX / 4,
+                    0 => *rng.pick(&[usize::MAX / 4, usize::MAX, usize::MAX - 1, usize::MAX / 2 + 1]),
                     1 => 1,
                     _ => rng.urange(0, len + 2),
                 },
@@ -533,7 +555,7 @@ impl World for BitsWorld {
             Init::New { len } | Init::NewUnaligned { len } | Init::WithValue { len, .. } | Init::FromIter { len, .. } | Init::Raw { len, .. } => shr(len),
             Init::WithCapacity { cap } => shr(cap),
             Init::Macro { n, .. } => shr(n),
-            Init::FromSlice { .. } => false,
+            Init::FromSlice { .. } | Init::Giant { .. } => false,
         };
         if changed {
             push(c);
